@@ -257,8 +257,16 @@ def run_trio(scn, observers=()):
                 nursery.cancel_scope.cancel()
 
     blocked = None
+    import contextlib
+    l2 = contextlib.nullcontext()
+    if scn.get("seam") == "L2":
+        from .l2 import Installed
+
+        l2 = Installed(world, sync=False, lib="trio")
     try:
-        trio.run(main, clock=MockClock(autojump_threshold=0), instruments=[_Instrument(ex)])
+        with l2:
+            trio.run(main, clock=MockClock(autojump_threshold=0),
+                     instruments=[_Instrument(ex)])
     except _Deadlocked:
         ex.deadlocked = True
     except BaseExceptionGroup as eg:  # noqa: F821
